@@ -21,6 +21,13 @@ import (
 
 // ScratchBase is where run roots are created (tmpfs).
 var ScratchBase = func() string {
+	// the driver hands every worker a directory inside its own scratch tree, so that whatever a dying worker
+	// leaves behind disappears with the check
+	if d := os.Getenv("VSIM_SCRATCH"); d != "" {
+		if err := os.MkdirAll(d, 0o755); err == nil {
+			return d
+		}
+	}
 	if st, err := os.Stat("/dev/shm"); err == nil && st.IsDir() {
 		return "/dev/shm"
 	}
